@@ -233,6 +233,20 @@ CLAIMS = {
               "steps per episode (quick) / 3 (thorough); the inner sweep loop is bounded by a cap of 400 decisions per path (cut "
               "paths counted). One defect found by this check was repaired in /repo (cached self-transition matrix)."),
         ref='DESIGN.md section 4 C17'),
+    'C18': dict(
+        text=("TabularGridGame.next_state_dist (with the factor-table algebra underneath) is executed with both agents' coordinates and "
+              "both action indices as symbolic integers (every in-grid placement outside obstacles, all 25 joint actions) and a "
+              "symbolic fence success probability; for every positive-probability successor the harness proves: distribution sums "
+              "to 1, no two agents on one non-goal cell, no swap, no agent in an obstacle / off the grid / through a wall in its "
+              "blocked direction / moved more than one cell, own-goal states lead to the terminal state, which is absorbing and "
+              "pays nothing. DiscreteFactorTable: with symbolic row weights (zero allowed) p & q equals the normalised natural "
+              "join with multiplied weights (independent join written in the harness), leaves its operands untouched, and "
+              "a*p | b*q adds the weights row by row."),
+        note=("6 layouts up to 3x3 (private goals adjacent, shared goal, obstacle + wall, fences, stacked goals); placements are a "
+              "superset of the reachable states (reachability itself uses JSON-encoded sets and is not executed symbolically); 5 "
+              "table pairs over nested-dict events (independent, shared variable, partially overlapping nested keys, same header, "
+              "single rows); log / exp / softmax in the log domain with uninterpreted Exp"),
+        ref='DESIGN.md section 4 C18'),
     'C19': dict(
         text=("Partly applicable. entropy_regularized_policy_iteration is executed (torch facade) for ONE iteration from a starting "
               "policy of a menu with symbolic rewards: a run that reports convergence is exactly a fixed point of one iteration, so "
